@@ -1,3 +1,4 @@
+pub mod btor2gen;
 pub mod expr;
 pub mod sys;
 pub mod sysenum;
